@@ -327,5 +327,4 @@ def _ctxkey(ctx):
 
 
 def _is_ping_ctx(ctx):
-    names = set(t.get("name") for _, t in ctx.bv.calls() if (t.get("callee") or "").startswith("request_builder::RequestBuilder"))
-    return "add_ping" in names and "add_update_check" not in names and "add_event" not in names
+    return lib.is_ping_body(ctx.bv)
